@@ -282,6 +282,208 @@ impl Metadata {
 //@ end
 }
 
+pub struct MetaV { pub build_info: Option<Seq<Seq<char>>>, pub build_version: Option<Seq<Seq<char>>>, pub comment: Seq<char>, pub contents: Seq<char>, pub deinstall: Option<Seq<char>>, pub desc: Seq<char>, pub display: Option<Seq<char>>, pub install: Option<Seq<char>>, pub installed_info: Option<Seq<Seq<char>>>, pub mtree_dirs: Option<Seq<Seq<char>>>, pub preserve: Option<Seq<Seq<char>>>, pub required_by: Option<Seq<Seq<char>>>, pub size_all: Option<int>, pub size_pkg: Option<int> }
+pub open spec fn vs_view(v: Seq<String>) -> Seq<Seq<char>> { Seq::new(v.len(), |i: int| v[i]@) }
+pub open spec fn mv_empty() -> MetaV { MetaV { build_info: None, build_version: None, comment: Seq::<char>::empty(), contents: Seq::<char>::empty(), deinstall: None, desc: Seq::<char>::empty(), display: None, install: None, installed_info: None, mtree_dirs: None, preserve: None, required_by: None, size_all: None, size_pkg: None } }
+/// what registering one metadata file does: the text is trimmed; list-valued entries become its lines, the three mandatory texts are
+/// APPENDED to, optional texts are replaced, the two sizes must be i64 text (otherwise an error and nothing changes)
+pub open spec fn read_spec(m: MetaV, e: MetadataEntry, value: Seq<char>) -> core::result::Result<MetaV, ()> {
+    let v = trimmed(value);
+    let ls = lines_spec(v);
+    match e {
+        MetadataEntry::BuildInfo => Ok(MetaV { build_info: Some(ls), ..m }),
+        MetadataEntry::BuildVersion => Ok(MetaV { build_version: Some(ls), ..m }),
+        MetadataEntry::Comment => Ok(MetaV { comment: m.comment + v, ..m }),
+        MetadataEntry::Contents => Ok(MetaV { contents: m.contents + v, ..m }),
+        MetadataEntry::DeInstall => Ok(MetaV { deinstall: Some(v), ..m }),
+        MetadataEntry::Desc => Ok(MetaV { desc: m.desc + v, ..m }),
+        MetadataEntry::Display => Ok(MetaV { display: Some(v), ..m }),
+        MetadataEntry::Install => Ok(MetaV { install: Some(v), ..m }),
+        MetadataEntry::InstalledInfo => Ok(MetaV { installed_info: Some(ls), ..m }),
+        MetadataEntry::MtreeDirs => Ok(MetaV { mtree_dirs: Some(ls), ..m }),
+        MetadataEntry::Preserve => Ok(MetaV { preserve: Some(ls), ..m }),
+        MetadataEntry::RequiredBy => Ok(MetaV { required_by: Some(ls), ..m }),
+        MetadataEntry::SizeAll => match i64_text_value(v) { Some(n) => Ok(MetaV { size_all: Some(n), ..m }), None => Err(()) },
+        MetadataEntry::SizePkg => match i64_text_value(v) { Some(n) => Ok(MetaV { size_pkg: Some(n), ..m }), None => Err(()) },
+    }
+}
+impl Default for Metadata {
+    fn default() -> (r: Metadata) ensures r.mv() == mv_empty()
+    {
+        let r = Metadata { build_info: None, build_version: None, comment: String::new(), contents: String::new(), deinstall: None, desc: String::new(), display: None, install: None, installed_info: None, mtree_dirs: None, preserve: None, required_by: None, size_all: None, size_pkg: None };
+        r
+    }
+}
+impl Metadata {
+    pub closed spec fn mv(&self) -> MetaV { MetaV { build_info: (match self.build_info { Some(v) => Some(vs_view(v@)), None => None }), build_version: (match self.build_version { Some(v) => Some(vs_view(v@)), None => None }), comment: self.comment@, contents: self.contents@, deinstall: (match self.deinstall { Some(v) => Some(v@), None => None }), desc: self.desc@, display: (match self.display { Some(v) => Some(v@), None => None }), install: (match self.install { Some(v) => Some(v@), None => None }), installed_info: (match self.installed_info { Some(v) => Some(vs_view(v@)), None => None }), mtree_dirs: (match self.mtree_dirs { Some(v) => Some(vs_view(v@)), None => None }), preserve: (match self.preserve { Some(v) => Some(vs_view(v@)), None => None }), required_by: (match self.required_by { Some(v) => Some(vs_view(v@)), None => None }), size_all: (match self.size_all { Some(v) => Some(v as int), None => None }), size_pkg: (match self.size_pkg { Some(v) => Some(v as int), None => None }) } }
+//@ extract src/metadata.rs : impl Metadata fn new
+    pub fn new() -> (r: Metadata)
+        ensures r.mv() == mv_empty()
+    {
+        let metadata: Metadata = Default::default();
+        metadata
+    }
+//@ end
+//@ extract src/metadata.rs : impl Metadata fn build_info
+    pub fn build_info(&self) -> (r: &Option<Vec<String>>)
+        ensures (match *r { Some(v) => self.mv().build_info == Some(vs_view(v@)), None => self.mv().build_info is None })
+    {
+        &self.build_info
+    }
+//@ end
+//@ extract src/metadata.rs : impl Metadata fn build_version
+    pub fn build_version(&self) -> (r: &Option<Vec<String>>)
+        ensures (match *r { Some(v) => self.mv().build_version == Some(vs_view(v@)), None => self.mv().build_version is None })
+    {
+        &self.build_version
+    }
+//@ end
+//@ extract src/metadata.rs : impl Metadata fn comment
+    pub fn comment(&self) -> (r: &String)
+        ensures r@ == self.mv().comment
+    {
+        &self.comment
+    }
+//@ end
+//@ extract src/metadata.rs : impl Metadata fn contents
+    pub fn contents(&self) -> (r: &String)
+        ensures r@ == self.mv().contents
+    {
+        &self.contents
+    }
+//@ end
+//@ extract src/metadata.rs : impl Metadata fn deinstall
+    pub fn deinstall(&self) -> (r: &Option<String>)
+        ensures (match *r { Some(v) => self.mv().deinstall == Some(v@), None => self.mv().deinstall is None })
+    {
+        &self.deinstall
+    }
+//@ end
+//@ extract src/metadata.rs : impl Metadata fn desc
+    pub fn desc(&self) -> (r: &String)
+        ensures r@ == self.mv().desc
+    {
+        &self.desc
+    }
+//@ end
+//@ extract src/metadata.rs : impl Metadata fn display
+    pub fn display(&self) -> (r: &Option<String>)
+        ensures (match *r { Some(v) => self.mv().display == Some(v@), None => self.mv().display is None })
+    {
+        &self.display
+    }
+//@ end
+//@ extract src/metadata.rs : impl Metadata fn install
+    pub fn install(&self) -> (r: &Option<String>)
+        ensures (match *r { Some(v) => self.mv().install == Some(v@), None => self.mv().install is None })
+    {
+        &self.install
+    }
+//@ end
+//@ extract src/metadata.rs : impl Metadata fn installed_info
+    pub fn installed_info(&self) -> (r: &Option<Vec<String>>)
+        ensures (match *r { Some(v) => self.mv().installed_info == Some(vs_view(v@)), None => self.mv().installed_info is None })
+    {
+        &self.installed_info
+    }
+//@ end
+//@ extract src/metadata.rs : impl Metadata fn mtree_dirs
+    pub fn mtree_dirs(&self) -> (r: &Option<Vec<String>>)
+        ensures (match *r { Some(v) => self.mv().mtree_dirs == Some(vs_view(v@)), None => self.mv().mtree_dirs is None })
+    {
+        &self.mtree_dirs
+    }
+//@ end
+//@ extract src/metadata.rs : impl Metadata fn preserve
+    pub fn preserve(&self) -> (r: &Option<Vec<String>>)
+        ensures (match *r { Some(v) => self.mv().preserve == Some(vs_view(v@)), None => self.mv().preserve is None })
+    {
+        &self.preserve
+    }
+//@ end
+//@ extract src/metadata.rs : impl Metadata fn required_by
+    pub fn required_by(&self) -> (r: &Option<Vec<String>>)
+        ensures (match *r { Some(v) => self.mv().required_by == Some(vs_view(v@)), None => self.mv().required_by is None })
+    {
+        &self.required_by
+    }
+//@ end
+//@ extract src/metadata.rs : impl Metadata fn size_all
+    pub fn size_all(&self) -> (r: &Option<i64>)
+        ensures (match *r { Some(v) => self.mv().size_all == Some(v as int), None => self.mv().size_all is None })
+    {
+        &self.size_all
+    }
+//@ end
+//@ extract src/metadata.rs : impl Metadata fn size_pkg
+    pub fn size_pkg(&self) -> (r: &Option<i64>)
+        ensures (match *r { Some(v) => self.mv().size_pkg == Some(v as int), None => self.mv().size_pkg is None })
+    {
+        &self.size_pkg
+    }
+//@ end
+//@ extract src/metadata.rs : impl Metadata fn read_metadata
+//@ rewrite D6.trim_to_string D6.parse_i64_full_string D6.string_lines
+    pub fn read_metadata(
+        &mut self,
+        entry: MetadataEntry,
+        value: &str,
+    ) -> (r: Result<(), &'static str>)
+        ensures (match read_spec(old(self).mv(), entry, value@) { Ok(m2) => r is Ok && final(self).mv() == m2, Err(_) => r is Err && final(self).mv() == old(self).mv() })
+    {
+        /*
+         * Set up various variable types that may be used.
+         *
+         * XXX: I'm not 100% sure .trim() is correct here, it might need to be
+         * modified to only strip newlines rather than all whitespace.
+         */
+        let val_string = value.trim().to_string();
+        let val_i64 = val_string.parse::<i64>();
+        let mut val_vec = vec![];
+        let ghost ls = lines_spec(val_string@);
+        for line in it: val_string.lines()
+            invariant
+                ls == lines_spec(val_string@),
+                it.snapshot@.remaining().len() == ls.len(),
+                forall|i: int| 0 <= i < ls.len() ==> (#[trigger] it.snapshot@.remaining()[i])@ == ls[i],
+                vs_view(val_vec@) =~= ls.take(it.index@ as int),
+        {
+            let ghost v0 = val_vec@;
+            let ghost k = it.index@ as int;
+            val_vec.push(line.to_string());
+            proof {
+                assert(ls.take(k + 1) =~= ls.take(k).push(ls[k]));
+                assert(vs_view(val_vec@) =~= vs_view(v0).push(ls[k]));
+            }
+        }
+        proof { assert(ls.take(ls.len() as int) =~= ls); }
+
+        match entry {
+            MetadataEntry::BuildInfo => self.build_info = Some(val_vec),
+            MetadataEntry::BuildVersion => self.build_version = Some(val_vec),
+            MetadataEntry::Comment => self.comment.push_str(&val_string),
+            MetadataEntry::Contents => self.contents.push_str(&val_string),
+            MetadataEntry::DeInstall => self.deinstall = Some(val_string),
+            MetadataEntry::Desc => self.desc.push_str(&val_string),
+            MetadataEntry::Display => self.display = Some(val_string),
+            MetadataEntry::Install => self.install = Some(val_string),
+            MetadataEntry::InstalledInfo => self.installed_info = Some(val_vec),
+            MetadataEntry::MtreeDirs => self.mtree_dirs = Some(val_vec),
+            MetadataEntry::Preserve => self.preserve = Some(val_vec),
+            MetadataEntry::RequiredBy => self.required_by = Some(val_vec),
+            MetadataEntry::SizeAll => {
+                self.size_all = Some(val_i64.or(Err("Invalid +SIZE_ALL"))?)
+            }
+            MetadataEntry::SizePkg => {
+                self.size_pkg = Some(val_i64.or(Err("Invalid +SIZE_PKG"))?)
+            }
+        }
+
+        Ok(())
+    }
+//@ end
+}
+
 // ---------------- the file system as uninterpreted world functions ----------------
 pub uninterp spec fn w_is_file(p: Seq<u8>) -> bool;
 pub uninterp spec fn w_exists(dir: Seq<u8>, name: Seq<char>) -> bool;
@@ -305,6 +507,19 @@ fn shim_readdir_next(rd: &mut Option<ReadDir>) -> (r: Option<io::Result<DirEntry
          else { r is Some && rd_rest((*final(rd))->Some_0) == rd_rest((*old(rd))->Some_0).skip(1)
                 && (match rd_rest((*old(rd))->Some_0)[0] { Ok(e) => r->Some_0 is Ok && de_path(&r->Some_0->Ok_0) == e.0 && de_name(&r->Some_0->Ok_0) == e.1, Err(_) => r->Some_0 is Err }) })
 { rd.as_mut().expect("Bad pkgdb read").next() }
+pub uninterp spec fn w_is_dir(p: Seq<u8>) -> bool;
+/// the entries a directory listing will yield (None: the directory cannot be read)
+pub uninterp spec fn w_read_dir(p: Seq<u8>) -> Option<Seq<core::result::Result<(Seq<u8>, Seq<u8>), ()>>>;
+#[verifier::external_body]
+fn shim_path_is_dir(p: &Path) -> (r: bool) ensures r == w_is_dir(pab(p)) { p.is_dir() }
+#[verifier::external_body]
+fn shim_pathbuf_from_path(p: &Path) -> (r: PathBuf) ensures pbb(&r) == pab(p) { PathBuf::from(p) }
+#[verifier::external_body]
+fn shim_read_dir(p: &PathBuf) -> (r: io::Result<ReadDir>)
+    ensures (match w_read_dir(pbb(p)) { Some(es) => r is Ok && rd_rest(r->Ok_0) == es, None => r is Err })
+{ std::fs::read_dir(p) }
+#[verifier::external_body]
+fn shim_io_not_found(m: &str) -> (r: io::Error) { io::Error::new(io::ErrorKind::NotFound, m.to_string()) }
 #[verifier::external_body]
 fn shim_dirent_path(d: &DirEntry) -> (r: PathBuf) ensures pbb(&r) == de_path(d) { d.path() }
 #[verifier::external_body]
@@ -384,6 +599,27 @@ fn shim_read_to_string(p: PathBuf) -> (r: io::Result<String>)
     ensures (match w_read(pbb(&p)) { Some(t) => r is Ok && r->Ok_0@ == t, None => r is Err })
 { fs::read_to_string(p) }
 impl Package {
+//@ extract src/pkgdb.rs : impl Package fn pkgbase
+    pub fn pkgbase(&self) -> (r: &String)
+        ensures r@ == self.pv().base
+    {
+        &self.pkgbase
+    }
+//@ end
+//@ extract src/pkgdb.rs : impl Package fn pkgname
+    pub fn pkgname(&self) -> (r: &String)
+        ensures r@ == self.pv().name
+    {
+        &self.pkgname
+    }
+//@ end
+//@ extract src/pkgdb.rs : impl Package fn pkgversion
+    pub fn pkgversion(&self) -> (r: &String)
+        ensures r@ == self.pv().version
+    {
+        &self.pkgversion
+    }
+//@ end
 //@ extract src/pkgdb.rs : impl Package fn read_metadata
 //@ rewrite D6.path_join_str D6.fs_read_to_string
     pub fn read_metadata(
@@ -400,6 +636,47 @@ impl Package {
 impl PkgDB {
     /// a file-backed database always has its directory iterator
     pub closed spec fn wf(&self) -> bool { self.dbtype is Files ==> self.readdir is Some }
+    pub closed spec fn is_files(&self) -> bool { self.dbtype is Files }
+    pub closed spec fn rd(&self) -> ReadDir { self.readdir->Some_0 }
+    pub closed spec fn dbpath(&self) -> Seq<u8> { pbb(&self.path) }
+//@ extract src/pkgdb.rs : impl PkgDB fn open
+//@ rewrite D6.path_is_dir_p D6.path_is_file_p D6.pathbuf_from_path_p D6.fs_read_dir D6.io_not_found
+    pub fn open(p: &std::path::Path) -> (r: Result<PkgDB, io::Error>)
+        ensures (if w_is_dir(pab(p)) {
+                match w_read_dir(pab(p)) {
+                    Some(entries) => r is Ok && r->Ok_0.wf() && r->Ok_0.is_files() && rd_rest(r->Ok_0.rd()) == entries && r->Ok_0.dbpath() == pab(p),
+                    None => r is Err,
+                }
+            } else if w_is_file(pab(p)) { r is Ok && r->Ok_0.wf() && !r->Ok_0.is_files() && r->Ok_0.dbpath() == pab(p) }
+            else { r is Err }),
+    {
+        let mut db = PkgDB {
+            dbtype: DBType::Files,
+            path: PathBuf::new(),
+            readdir: None,
+        };
+
+        /*
+         * Nothing fancy for now, assume that what the user passed is valid,
+         * we'll find out soon enough if it isn't.
+         */
+        if p.is_dir() {
+            db.dbtype = DBType::Files;
+            db.path = PathBuf::from(p);
+            db.readdir = Some(fs::read_dir(&db.path)?);
+        } else if p.is_file() {
+            db.dbtype = DBType::Database;
+            db.path = PathBuf::from(p);
+        } else {
+            return Err(io::Error::new(
+                io::ErrorKind::NotFound,
+                "Invalid pkgdb",
+            ));
+        }
+
+        Ok(db)
+    }
+//@ end
 //@ extract src/pkgdb.rs : impl PkgDB fn is_valid_pkgdir
 //@ rewrite D6.path_is_file D6.path_join_exists
     fn is_valid_pkgdir(&self, pkgdir: &Path) -> (r: bool)
